@@ -78,15 +78,15 @@ Definition choose_strategy (b : body) : strategy :=
   else if truthy_l (b_page_by b) then SPageBy else SDefault.
 
 (* ---- D. paginate ---- *)
-Definition paginate (s : secdoc) (removed : list nat) (cw : list Q) : res (list pagectx) :=
+Definition paginate (s : secdoc) (pattrs : attrs) (removed : list nat) (cw : list Q) : res (list pagectx) :=
   let b := s_body s in
   let f := s_frame s in
   let st := choose_strategy b in
   let add := additional_rows s in
   do ms <- match st with
-           | SDefault => row_metadata (s_widths s) f removed cw None None
-           | SPageBy => row_metadata (s_widths s) f removed cw (b_page_by b) None
-           | SSubline => row_metadata (s_widths s) f removed cw (b_page_by b) (b_subline_by b)
+           | SDefault => row_metadata (s_widths s) (a_font pattrs) (a_size pattrs) f removed cw None None
+           | SPageBy => row_metadata (s_widths s) (a_font pattrs) (a_size pattrs) f removed cw (b_page_by b) None
+           | SSubline => row_metadata (s_widths s) (a_font pattrs) (a_size pattrs) f removed cw (b_page_by b) (b_subline_by b)
            end;
   let new_page := match st with SDefault => false | SPageBy => b_new_page b | SSubline => true end in
   let pages := assign_pages (p_nrow (s_page s)) add new_page ms in
@@ -489,7 +489,7 @@ Definition section_pages (s : secdoc) : res (frame * attrs * list Q * list pagec
             | Some ((_ :: _) as l) => col_widths l W
             | _ => col_widths (repeat (1 # 1) (length (f_cols pf))) W
             end in
-  do pages0 <- paginate s rem cw;
+  do pages0 <- paginate s pattrs rem cw;
   let pages1 := match pages0 with [] => [synthetic_page] | _ => pages0 end in
   do pp <- post_process pf (s_body s) pages1;
   let '(pages, rows) := pp in
@@ -511,21 +511,24 @@ Definition encode_section (ctx : option (list str)) (s : secdoc) : res (list (li
   render_pages ctx s pf cw rows pattrs pages.
 
 (* ---- ambiguity flags: exact ties where binary64 noise decides the implementation's result ---- *)
-Fixpoint row_tie (widths : list (str * Q)) (removed : list nat) (cw : list Q)
+Fixpoint row_tie (widths : list (str * Q)) (fonts : omat Z) (sizes : omat Q) (row_idx : nat)
+         (removed : list nat) (cw : list Q)
          (row : list val) (col_idx width_idx : nat) : bool :=
   match row with
   | [] => false
   | v :: rest =>
-    if existsb (Nat.eqb col_idx) removed then row_tie widths removed cw rest (S col_idx) width_idx
+    if existsb (Nat.eqb col_idx) removed then row_tie widths fonts sizes row_idx removed cw rest (S col_idx) width_idx
     else
       match nth_error cw width_idx with
       | None => false
       | Some cur =>
         let prev := match width_idx with O => 0 # 1 | S k => nth k cw (0 # 1) end in
-        match width_of widths (py_str v) with
+        match (do font <- cell_font fonts row_idx width_idx;
+               do size <- cell_size sizes row_idx width_idx;
+               width_at widths (py_str v) font size) with
         | Ok tw => (negb (Qeqb tw (0 # 1)) && is_int_tie (tw / (cur - prev)))
-                   || row_tie widths removed cw rest (S col_idx) (S width_idx)
-        | Err _ => row_tie widths removed cw rest (S col_idx) (S width_idx)
+                   || row_tie widths fonts sizes row_idx removed cw rest (S col_idx) (S width_idx)
+        | Err _ => row_tie widths fonts sizes row_idx removed cw rest (S col_idx) (S width_idx)
         end
       end
   end.
@@ -547,9 +550,11 @@ Definition section_tie (s : secdoc) : bool :=
             | Some ((_ :: _) as l) => col_widths l W
             | _ => col_widths (repeat (1 # 1) (length (f_cols pf))) W
             end in
-  any_b (fun row => row_tie (s_widths s) rem cw row 0 0
-                    || heading_tie s cw (b_page_by (s_body s)) row
-                    || heading_tie s cw (b_subline_by (s_body s)) row) (f_rows (s_frame s))
+  any_b (fun ir => let '(i, row) := ir in
+                   row_tie (s_widths s) (a_font pattrs) (a_size pattrs) i rem cw row 0 0
+                   || heading_tie s cw (b_page_by (s_body s)) row
+                   || heading_tie s cw (b_subline_by (s_body s)) row)
+        (combine (seq 0 (length (f_rows (s_frame s)))) (f_rows (s_frame s)))
   || any_b (fun c => is_half_tie (c * (1440 # 1))) cw.
 
 (* the one data-dependent refusal: group_by keys that are not contiguous *)
